@@ -101,6 +101,14 @@ PIPELINES = {
         "drivers": [{"name": "all", "cmd": ["secrets", "{out}", "{tier}"], "chunk": 100000, "random": True, "require_cov": ["channelsMissing=0"]}],
         "min_events": 100,
     },
+    # whole sessions: behaviours of MC_Session (tlc -simulate) replayed step by step, every step judged by all clauses
+    "sessions": {
+        "variants": ["ring"],
+        "mc": [{"module": "MC_Session", "workers": 8, "emits": False},
+               {"module": "MC_Session", "mode": "simulate", "cfg": "MC_Session_sim.cfg", "num": {"quick": 60, "thorough": 1500}, "depth": 45}],
+        "drivers": [{"name": "replay", "cmd": ["sessions", "{cases_MC_Session_sim}", "{out}"], "stateful": True, "chunk": 4000, "random": True}],
+        "min_events": 500,
+    },
     "csrparse": {
         "variants": ["ring"],
         "mc": [{"module": "MC_CsrParse", "workers": 4, "emits": False}],
@@ -166,7 +174,7 @@ def _p(level, pipelines, clauses, rule, ops=None, exhaustive=False, assumptions=
             "exhaustive": exhaustive, "assumptions": assumptions or CERT_ASSUME}
 
 PROPS = {
-    "C02": _p("model_checking", ["cert"], ["C02."],
+    "C02": _p("model_checking", ["cert", "sessions"], ["C02."],
               "cases = elements of the finite set Cases of spec/MC_Cert.tla (presence product + value sweeps); an event is distinct by its abstract args (parameters, key algorithms, loading entry point) without key material; every event is non-trivial in that at least the subject, validity and serial clauses are exercised",
               ops=["Cert"], exhaustive=True),
     "C09": _p("model_checking", ["time", "cert", "crl"], ["C09."],
@@ -199,7 +207,7 @@ PROPS = {
     "C14": _p("model_checking", ["pem"], ["C14."],
               "certificate / CSR / CRL for common-name lengths 0..149 (every residue of the DER length modulo 48 is required by a coverage predicate evaluated by TLC) x algorithms (Ed25519 over the full span, P-256/P-384/RSA-2048 sampled, multi-kilobyte RSA certificates with 40 SANs), private and public key PEM per algorithm; distinct by (kind, algorithm, DER length)",
               ops=["Pem"], exhaustive=False),
-    "C15": _p("model_checking", ["purity"], ["C15."],
+    "C15": _p("model_checking", ["purity", "sessions"], ["C15."],
               "MC_Purity: every interleaving of 3 threads x 2 generation calls over 8 templates (exhaustive, history hidden by a VIEW); sessions = TLC -simulate behaviours of the same module (4 threads x 6 calls interleaved with interfering calls: DN edits, key loads, failing parses, CSR parsing, the same key under other key-identifier methods, unrelated generations, CA import) replayed call by call; 8 generation templates (certificate self-signed / issued, CSR, CRL; rich names, 6 EKUs, name constraints, custom extensions) on shared Ed25519 / RSA / P-256 keys and a shared issuer; threads sharing Arc'd key and issuer; fresh processes (different hash-map seeds) sharing the same key files; distinct by (template, back end, process, thread, phase)",
               ops=["Gen"], exhaustive=False),
     "C16": _p("exploration", ["features", "backends", "keyxfer", "cert-awslc"], ["C16."],
@@ -208,24 +216,24 @@ PROPS = {
     "C17": _p("model_checking", ["import"], ["C17."],
               "every self-signed case of MC_Cert.Cases (presence product sampled 1:3 in quick, all value sweeps: 512 key-usage sets, path lengths 0..255, prefixes 0..255, SAN / subtree / DN-kind variants, key-id methods, serial classes) is generated, imported through DER and PEM, and re-issued from the imported parameters with the same key; plus OpenSSL-generated CAs over MC_Import.Cases",
               ops=["ImportCa"], exhaustive=True),
-    "C03": _p("model_checking", ["import", "cert"], ["C03."],
+    "C03": _p("model_checking", ["import", "sessions", "cert"], ["C03."],
               "MC_Import.Cases: issuer names = all RDN sequences of 0..2 (quick) / 0..3 (thorough) attributes over 6 types with repetition x string kinds, 4x4 key-identifier methods, 6x(2|6) key algorithms, SKI present/absent; issuer origin in {rcgen direct, rcgen imported via DER/PEM, OpenSSL-generated imported via DER/PEM}; each chain leaf -> original CA judged by OpenSSL and webpki; plus the issuer-name clause on every issuer-signed certificate of MC_Cert",
               ops=["ImportCa", "Chain", "Cert"], exhaustive=True),
     "C19": _p("exploration", ["secrets"], ["C19."],
               "every output channel of Secrets!Channels (artefact DER/PEM, public key exports, Debug renderings of 9 types, Display/Debug of errors from truncated / corrupted / mislabelled / legacy-labelled / misfitting key loads through every loader and from key material offered to the certificate, CSR and SPKI parsers, key-then-certificate bundles) x key algorithm (Ed25519, P-256, P-384, RSA-2048, P-521 under aws-lc-rs) x back end x loading path; each channel searched for every 12-byte window of the private scalar / seed / RSA d, p, q, dP, dQ, qInv in raw, hex (any case, separators, both nibble alignments), decimal-list and base64 (4 alignments, both alphabets) form; the export functions must be found to contain the key (non-vacuity of the search); coverage predicate: every channel seen; distinct by (channel, algorithm, back end, loading path)",
               ops=["Channel"], exhaustive=False),
-    "C20": _p("model_checking", ["dn"], ["C20."],
+    "C20": _p("model_checking", ["dn", "sessions"], ["C20."],
               "cases = every sequence of exactly MaxOps (4 quick / 5 thorough) push/remove operations over 3-4 attribute types x 2 values (MC_Names.Histories), each followed by equality probes against freshly built names (same enumeration, proper prefix, reversed, last value changed) and by issuing a certificate whose subject is decoded; plus random walks of length 200 over 10 types and 6 value kinds; distinct by (operation, arguments) event",
               ops=["DnPush", "DnRemove", "DnEq", "DnEncode"], exhaustive=False),
     "C04": _p("model_checking", ["cert", "time", "csr", "crl"], ["C04."],
               "union of the certificate (MC_Cert), time (MC_Time), CSR (MC_Csr) and CRL (MC_Crl) case sets; every artefact is walked by the strict DER reader from the outermost element into every known extension value; value-dependent forms (key-usage named bits for all 512 sets, INTEGER for every serial class, BasicConstraints, SET OF order of CSR attributes) are recomputed in TLA+",
               ops=["Cert", "Csr", "Crl"], exhaustive=True),
-    "C05": _p("model_checking", ["cert", "csr", "crl"], ["C05."],
+    "C05": _p("model_checking", ["cert", "csr", "crl", "sessions"], ["C05."],
               "union of the certificate, CSR and CRL case sets; automatic serials are driven through public keys searched so that SHA-256 of the key starts with each of 13 two-octet prefix classes (00 00, 00 80, 7F FF, 80 00, FF FF, ...)",
               ops=["Cert", "Csr", "Crl"], exhaustive=True),
-    "C01": _p("model_checking", ["faults", "cert", "csr", "crl"], ["C01."],
+    "C01": _p("model_checking", ["faults", "cert", "csr", "crl", "csrparse", "sessions"], ["C01."],
               "union of the certificate, CSR and CRL case sets (all algorithms, local keys through eight loading entry points and remote signers) plus MC_Sign: every subset of the five signing calls of a root/intermediate/leaf/CRL/CSR session failing at the first attempt, for several error values",
-              ops=["Cert", "Csr", "Crl"], exhaustive=True),
+              ops=["Cert", "Csr", "Crl", "CsrIssue"], exhaustive=True),
 }
 
 TRUSTED = ("trusted base: TLC; the TLA+ text; the harness projection (own strict DER/X.509 reader, cross-examined by OpenSSL 3.0 and x509-parser on every artefact); "
